@@ -477,11 +477,33 @@ func (t *` + typ + `) Dump() {}
 func (r R) Do() {}
 
 func (r R) Free() {}
+
+// ByName allows the importer by its package NAME (consv), ByBase names the last element of its import path (v2).
+// @packageonly consv
+func ByName() {}
+
+// @packageonly v2
+func ByBase() {}
+
+// @packageonly ex.com/m/cons/v2
+func ByPath() {}
 `}, {Name: "z_types.go", Src: `package meth
 
 type R struct{}
 `}}}
+	// an importer whose package name (consv) differs from the last element of its import path (v2)
+	consv := prog.Pkg{Path: "ex.com/m/cons/v2", Files: []prog.File{{Name: "c.go", Src: `package consv
+
+import "ex.com/m/meth"
+
+func use() {
+	meth.ByName()
+	meth.ByBase() // want PKGO02
+	meth.ByPath()
+}
+`}}}
 	return &prog.Program{Pkgs: []prog.Pkg{twin("alpha", "TA"), twin("omega", "TO"), meth,
+		consv,
 		{Path: "ex.com/m/cons", Files: []prog.File{{Name: "c.go", Src: `package cons
 
 import (
@@ -792,6 +814,45 @@ func RaceCorpus(n int) *prog.Program {
 // next files BEGIN with package-level code that would be legal only inside that constructor. Which
 // file holds the lower positions is an accident of the loader's parse order; nothing may leak from the
 // end of one file into the beginning of the next, in either order.
+// IgnoresEverywhere: several packages whose FIRST @ignore comments name different codes and whose bodies
+// contain violations of the OTHER packages' codes. Per-package suppression state must stay per package,
+// also when a project-wide exclusion is configured.
+func IgnoresEverywhere() *prog.Program {
+	// w returns the want marker of a diagnostic unless the comment's list covers its code
+	w := func(list, code string) string {
+		for _, tok := range strings.Split(list, ",") {
+			tok = strings.TrimSpace(tok)
+			if tok == "ALL" || tok == code || tok == strings.TrimRight(code, "0123456789") {
+				return ""
+			}
+		}
+		return " // want " + code
+	}
+	user := func(name, ignoreFirst, ignoreSecond string) prog.Pkg {
+		third := "\tt.F = 2 // @ignore " + ignoreSecond + "\n"
+		if w(ignoreSecond, "IMM01") != "" {
+			// the line's own comment does not cover IMM01: the diagnostic stays, and a line holds one comment only
+			third = "\tt.F = 2 // want IMM01\n"
+		}
+		return prog.Pkg{Path: "ex.com/m/" + name, Files: []prog.File{{Name: name + ".go", Src: "package " + name + "\n\nimport \"ex.com/m/lib\"\n\n" +
+			"// @ignore " + ignoreFirst + "\nfunc first(t *lib.T) {\n\tt.F = 1" + w(ignoreFirst, "IMM01") + "\n\t_ = lib.T{}" + w(ignoreFirst, "CTOR01") + "\n}\n\n" +
+			"// @ignore " + ignoreSecond + "\nfunc second(t *lib.T) {\n\tt.G++" + w(ignoreSecond, "IMM03") + "\n\t_ = new(lib.T)" + w(ignoreSecond, "CTOR02") + "\n}\n\n" +
+			"func third(t *lib.T) {\n" + third + "\tvar z lib.T // want CTOR03\n\t_ = z\n}\n"}}}
+	}
+	return &prog.Program{Pkgs: []prog.Pkg{
+		{Path: "ex.com/m/lib", Files: []prog.File{{Name: "lib.go", Src: `package lib
+
+// T is immutable.
+// @immutable
+// @constructor NewT
+type T struct{ F, G int }
+
+func NewT() *T { return &T{} }
+`}}},
+		user("ua", "CTOR01", "IMM03"), user("ub", "IMM01", "CTOR02"), user("uc", "IMM", "CTOR"), user("ud", "CTOR", "IMM01, CTOR03"),
+	}}
+}
+
 func FileBoundaries() *prog.Program {
 	return &prog.Program{Pkgs: []prog.Pkg{
 		{Path: "ex.com/m/lib", Files: []prog.File{{Name: "a.go", Src: `package lib
